@@ -33,10 +33,14 @@ def main():
             checks = sys.argv[i + 1].split(",")
         if a == "--tier":
             tier = sys.argv[i + 1]
+    name = f"{pid}-{k}"
+    for i, a in enumerate(sys.argv):
+        if a == "--as":
+            name = sys.argv[i + 1]
     patch = src / f"patch_{k}.diff"
     demo = src / f"demo_{k}.py"
     meta = json.loads((src / f"meta_{k}.json").read_text()) if (src / f"meta_{k}.json").exists() else {}
-    out = V / "seeded" / f"{pid}-{k}"
+    out = V / "seeded" / name
     out.mkdir(parents=True, exist_ok=True)
     shutil.copy(patch, out / "patch.diff")
     shutil.copy(demo, out / "demo.py")
@@ -80,7 +84,7 @@ def main():
             rec["checks"][c] = {"tier": tier, "exit": r.returncode, "clauses": clauses[:12],
                                 "tail": [l[:300] for l in r.stdout.splitlines() if not l.startswith("KNOWN-FINDING")][-2:]}
     (out / "meta.json").write_text(json.dumps(rec, indent=1))
-    print(json.dumps({"id": f"{pid}-{k}", "valid": ok, "suite": rec["confirmed"].get("suite"),
+    print(json.dumps({"id": name, "valid": ok, "suite": rec["confirmed"].get("suite"),
                       "demo": [rec["confirmed"].get("demo_unchanged_exit"), rec["confirmed"].get("demo_changed_exit")],
                       "checks": {c: (v["exit"], v["clauses"][:3]) for c, v in rec["checks"].items()}}))
 
